@@ -117,6 +117,15 @@ def run_job(job):
             got = where.get(k, [])
             if got != [want]:
                 bad({"class": "placement", "side": "writer"}, "sample %d (n=%d,d=%d,fc=%d) stored in %s, exact placement %s" % (k, n, d, fc, got, want), k=k)
+        # leftovers whose names merely end like a properties file (an operator's backup copies, describing
+        # another configuration) do not describe the channel
+        import shutil
+
+        for stray in ("2014_dmd_properties.h5", "OLD_metadata.h5"):
+            shutil.copy2(os.path.join(mdir, "dmd_properties.h5"), os.path.join(mdir, stray))
+            with h5py.File(os.path.join(mdir, stray), "a") as f:
+                f.attrs["file_cadence_secs"] = f.attrs["file_cadence_secs"] * 2 + 1
+                f.attrs["subdir_cadence_secs"] = f.attrs["subdir_cadence_secs"] * 3
         r = drf.DigitalMetadataReader(mdir)
         for k in ks:
             got = [int(x) for x in r.read(k, k)]
